@@ -12,6 +12,8 @@ CONSTANTS
   Tbls = {"mem"}
   Defers = {TRUE, FALSE}
   MailFroms = {"addr", "null", "nullparam", "upper", "utf8"}
+  Doms = {"ascii"}
+  EmailVariants = {}
   MaxOps = 12
   Devs = {}
   Gen = FALSE
